@@ -588,6 +588,36 @@ func checkC10Dispatch(r *core.Run, p *core.Program, a *analysis) {
 			})
 		}
 		walk(f.Decl.Body, info, nil, 0)
+		// a method that hands the event over to another event of the receiver (nil big number -> OnNull, NaN -> OnNan)
+		// must do so before it counts or validates anything itself: the other event counts the object again
+		{
+			var firstCount, lastRedispatch token.Pos
+			ast.Inspect(f.Decl.Body, func(nd ast.Node) bool {
+				call, ok := nd.(*ast.CallExpr)
+				if !ok {
+					return true
+				}
+				cal := callee(info, call)
+				if cal == nil {
+					return true
+				}
+				if rn := recvNamed(cal); rn != nil && rn.Obj() == ctxT && cal.Name() == "NotifyNewObject" && !firstCount.IsValid() {
+					firstCount = call.Pos()
+				}
+				if rn := recvNamed(cal); rn != nil && rn.Obj().Name() == "RulesEventReceiver" && strings.HasPrefix(cal.Name(), "On") && cal != f.Obj {
+					if sel, ok := call.Fun.(*ast.SelectorExpr); ok {
+						if id, ok := stripParens(sel.X).(*ast.Ident); ok && f.Decl.Recv != nil && len(f.Decl.Recv.List) == 1 && len(f.Decl.Recv.List[0].Names) == 1 && info.ObjectOf(id) == info.ObjectOf(f.Decl.Recv.List[0].Names[0]) {
+							lastRedispatch = call.Pos()
+						}
+					}
+				}
+				return true
+			})
+			if lastRedispatch.IsValid() {
+				r.Check("C10.dispatch", "rules.RulesEventReceiver."+ev+"|redispatch before counting", lastRedispatch, !firstCount.IsValid() || firstCount > lastRedispatch,
+					"the event is counted (NotifyNewObject) before it is handed over to another event of the receiver, which counts it again: one object uses up two of MaxObjectCount and of the enclosing container's expected count")
+			}
+		}
 		name := "rules.RulesEventReceiver." + ev
 		if cls.method == "" {
 			r.Check("C10.dispatch", name+"|no-validation", f.Decl.Pos(), len(ruleCalls) == 0 && len(notify) == 0, "OnError must not be validated or counted")
